@@ -48,6 +48,7 @@ type c08Res struct {
 	Val   interface{} // decoded value (pointer)
 	Err   string
 	Panic string
+	Raw   []byte // the very slice sonic returned (kept to see whether later calls touch it)
 }
 
 func (r c08Res) String() string {
@@ -85,13 +86,13 @@ func c08Exec(types []reflect.Type, cl *c08Call) (res c08Res) {
 	switch cl.Kind {
 	case 0:
 		b, err := stdAPI.Marshal(cl.V.Interface())
-		return c08Res{Out: string(b), Err: errStr(err)}
+		return c08Res{Out: string(b), Err: errStr(err), Raw: b}
 	case 5:
 		s, err := stdAPI.MarshalToString(cl.V.Interface())
 		return c08Res{Out: s, Err: errStr(err)}
 	case 8:
 		b, err := stdAPI.MarshalIndent(cl.V.Interface(), "", " ")
-		return c08Res{Out: string(b), Err: errStr(err)}
+		return c08Res{Out: string(b), Err: errStr(err), Raw: b}
 	case 7:
 		buf := make([]byte, 3, 3+len(cl.Text)/2)
 		copy(buf, "pfx")
@@ -313,6 +314,15 @@ func runC08(c *Ctx) Result {
 	for i := 0; i < nClients; i++ {
 		if p := sim.ClientPanic(i); p != nil {
 			return fail("panic", fmt.Sprintf("client %d: %v", i, clip(fmt.Sprint(p), 300)), true)
+		}
+	}
+	// returned bytes are caller-owned also under concurrency: no later call on any
+	// goroutine may have changed them (seeded pools poison recycled buffers)
+	for i := range calls {
+		for j := range calls[i] {
+			if g := got[i][j]; g.Raw != nil && g.Err == "" && string(g.Raw) != g.Out {
+				return fail("returned-bytes-changed-by-later-calls:"+c08KindNames[calls[i][j].Kind], fmt.Sprintf("client %d call %d: the slice returned by %s read %s when it was returned and %s at the end of the run", i, j, c08KindNames[calls[i][j].Kind], clip(g.Out, 100), clip(string(g.Raw), 100)), false)
+			}
 		}
 	}
 	type c08Suspect struct {
